@@ -159,7 +159,7 @@ class Ctx:
 
 ALLOWED_AXIOMS = []
 # properties whose Properties/<pid>.v carries the obligation over the regenerated inventory of constants (tools/mkprops.py CONST_PROPS)
-CONST_PROPS = ('C03', 'C05', 'C11', 'C12', 'C17', 'C19', 'C20')
+CONST_PROPS = ('C03', 'C04', 'C05', 'C11', 'C12', 'C17', 'C19', 'C20')
 
 TRUSTED_BASE = [
     'Coq 8.16.1 kernel and vm_compute (no native_compute)',
